@@ -374,22 +374,28 @@ def validate(ctx, module, summ, sigfn, timeout=1800, xmx="3g", par=8):
         if not fails:
             continue
         evs = read_ndjson(s)
+        by_h = {}
+        for x in evs:
+            by_h.setdefault(x.get("h"), []).append(x)
+        per_sig = {}
         for line, reason in fails:
             e = evs[line - 1]
             if e.get("panic") == "skipped-after-panic":
                 continue          # the history already ended with a reported panic
-            hist = [x for x in evs if x.get("h") == e.get("h")]
-            hist.sort(key=lambda x: x.get("i", 0))
+            sig = sigfn(e, reason)
+            nfail += 1
+            per_sig[sig] = per_sig.get(sig, 0) + 1
+            if per_sig[sig] > 25:
+                # enough material to confirm and report this signature; only count the rest
+                ctx.failures.append(dict(kind="trace", module=module, reason=reason, event=e, history=None, context=None, sig=sig))
+                continue
+            hist = sorted(by_h.get(e.get("h"), []), key=lambda x: x.get("i", 0))
             # the history up to and including the failing step
             hist = [x for x in hist if x.get("i", 0) <= e.get("i", 0)]
-            # the history executed just before it in the same process: context for failures that depend on
-            # what the library was asked before (replayed in front of the failing history, not judged)
-            h0 = e.get("h", 0)
-            prev = [x for x in evs if h0 - 8 <= x.get("h", -1) < h0]
-            prev.sort(key=lambda x: (x.get("h", 0), x.get("i", 0)))
-            ctx.failures.append(dict(kind="trace", module=module, reason=reason, event=e, history=hist, context=prev,
-                                     sig=sigfn(e, reason)))
-            nfail += 1
+            # context (the histories executed just before it in the generating process, which live in the other
+            # shards) is collected lazily by context_of() when the failure has to be confirmed
+            ctx.failures.append(dict(kind="trace", module=module, reason=reason, event=e, history=hist, context=None,
+                                     shards=summ["shards"], sig=sig))
     if total != summ["events"]:
         raise Broken("validated %d lines but %d events were generated" % (total, summ["events"]))
     log("  B3 validate %-16s %d events in %d shards, %d rejected  %.1fs" % (module, total, len(shards), nfail, time.time() - t))
@@ -447,6 +453,37 @@ def known_match(known, sig):
     return None
 
 
+def context_of(failure, depth=8):
+    """The histories that ran just before the failing one in the generating process (history ids are handed out
+    in execution order and dealt round-robin to the shard files). Replayed in front of it, not judged."""
+    if failure.get("context") is not None:
+        return failure["context"]
+    ctxt = []
+    shards = failure.get("shards") or []
+    h0 = failure["event"].get("h")
+    if shards and isinstance(h0, int):
+        want = [h for h in range(max(0, h0 - depth), h0)]
+        by_file = {}
+        for h in want:
+            by_file.setdefault(shards[h % len(shards)], set()).add(h)
+        found = {}
+        for path, hs in by_file.items():
+            pats = tuple('"h":%d,' % h for h in hs)
+            try:
+                with open(path) as f:
+                    for ln in f:
+                        if any(p in ln for p in pats):
+                            e = json.loads(ln)
+                            if e.get("h") in hs:
+                                found.setdefault(e["h"], []).append(e)
+            except OSError:
+                pass
+        for h in want:
+            ctxt += sorted(found.get(h, []), key=lambda x: x.get("i", 0))
+    failure["context"] = ctxt
+    return ctxt
+
+
 def write_history_twice(path, history, context=None):
     """The failing history (preceded by the history that ran just before it), executed twice in one fresh
     process: a failure that needs library-internal state left behind by earlier calls (pools, reused
@@ -467,7 +504,7 @@ def confirm(ctx, failure, trace_module, sigfn):
     h = hashlib.sha1(failure["sig"].encode()).hexdigest()[:10]
     inp = os.path.join(ctx.dir, "confirm-%s.in.ndjson" % h)
     outp = os.path.join(ctx.dir, "confirm-%s.out.ndjson" % h)
-    write_history_twice(inp, failure["history"], failure.get("context"))
+    write_history_twice(inp, failure["history"], context_of(failure))
     rc, o = sh([BIN, "replay", ctx.pid, "-in", inp, "-out", outp], timeout=600)
     if rc != 0:
         raise Broken("replay failed: " + o[-2000:])
@@ -484,7 +521,7 @@ def write_replay(ctx, failure):
     path = os.path.join(REPLAYS, "%s-%s.json" % (ctx.pid, h))
     with open(path, "w") as f:
         json.dump(dict(property=ctx.pid, signature=failure["sig"], reason=failure["reason"], kind=failure["kind"],
-                       module=failure.get("module"), history=failure["history"], context=failure.get("context") or []), f)
+                       module=failure.get("module"), history=failure["history"], context=context_of(failure) if failure.get("kind") == "trace" else []), f)
     return path
 
 
